@@ -56,17 +56,25 @@ def record(ns, w, ov):
     try:
         wg = WindowGenerator(ns, w, ov)
         rec["nwin"] = int(wg.nwin)
+        # every other triple uses ONE object for all its generators, and iterates `firstlast` twice (a generator that
+        # keeps state between uses shows up as different windows the second time); the others use fresh objects
+        same = (ns + w + ov) % 2 == 0
+        new = (lambda: wg) if same else (lambda: WindowGenerator(ns, w, ov))
+        if same:
+            first_pass = [(int(a), int(b)) for a, b in wg.firstlast]
         fl = []
         for first, last in wg.firstlast:
             fl.append((int(first), int(last), int(wg.iw)))
+        if same and first_pass != [(a, b) for a, b, _ in fl]:
+            fl = [(-1, -1, -1)] * len(fl)          # the second iteration differs from the first: windows are not reproducible
         if ov % 2 == 0:
-            val = [tuple(int(x) for x in v) for v in WindowGenerator(ns, w, ov).firstlast_valid]
+            val = [tuple(int(x) for x in v) for v in new().firstlast_valid]
         else:
             val = [(f, l, -1, -1) for f, l, _ in fl]
         ramp = scipy.signal.windows.hann((ov + 1) * 2 + 1, sym=True)[1:ov + 1]
-        spl = [(int(f), int(l), _rle(a, ramp), len(a)) for f, l, a in WindowGenerator(ns, w, ov).firstlast_splicing]
-        ts = WindowGenerator(ns, w, ov).tscale(fs=1)
-        sl = list(WindowGenerator(ns, w, ov).slice)
+        spl = [(int(f), int(l), _rle(a, ramp), len(a)) for f, l, a in new().firstlast_splicing]
+        ts = new().tscale(fs=1)
+        sl = list(new().slice)
         rec["nslices"] = len(sl)
         for k, (f, l, iw) in enumerate(fl):
             fv, lv = (-99, -99)
